@@ -19,6 +19,10 @@ class NotEvaluable(Exception):
     pass
 
 
+class EvalRaises(NotEvaluable):
+    """the term is evaluable at this point and evaluating it raises (division by zero): a decided fact about the expression"""
+
+
 def _canon_leaf(t):
     """leaf identity up to alias families: x.sr == x.sampling_rate == x._sampling_rate"""
     if not isinstance(t, tuple):
@@ -36,6 +40,9 @@ FUNCS = {
     'int': lambda a: int(a), 'round': lambda a: round(a), 'floor': lambda a: math.floor(a), 'ceil': lambda a: math.ceil(a), 'trunc': lambda a: math.trunc(a),
     'abs': lambda a: abs(a), 'float': lambda a: float(a), 'bool': lambda a: bool(a),
 }
+
+
+STR_METHODS = {'isdigit', 'isnumeric', 'isdecimal', 'isalpha', 'lstrip', 'rstrip', 'strip', 'startswith', 'endswith', 'lower', 'upper', 'replace', 'removeprefix', 'removesuffix', 'split'}
 
 
 class Evaluator:
@@ -87,6 +94,12 @@ class Evaluator:
                 except AttributeError as exc:
                     raise NotEvaluable(exc)
             return s.leaf(t)
+        if k == 'g':
+            from . import pat as _pat
+            r_ = _pat._resolve_const(t)            # a module-level number constant is that number
+            if r_[0] == 'c':
+                return r_[1]
+            return s.leaf(t)
         if k in ('p', 'lp', 'loopvar', 'elem', 'self'):
             return s.leaf(t)
         if k == 'bin':
@@ -107,7 +120,11 @@ class Evaluator:
                     return a % b
                 if op == '**':
                     return a ** b
-            except (TypeError, ZeroDivisionError, OverflowError) as exc:
+            except ZeroDivisionError as exc:
+                if isinstance(a, (int, float)) and isinstance(b, (int, float)):
+                    raise EvalRaises('ZeroDivisionError: %s' % exc)
+                raise NotEvaluable(exc)
+            except (TypeError, OverflowError) as exc:
                 raise NotEvaluable(exc)
             raise NotEvaluable(op)
         if k == 'un':
@@ -147,6 +164,19 @@ class Evaluator:
                     return {'any': any, 'all': all, 'sum': sum, 'tuple': tuple, 'list': tuple, 'max': max, 'min': min}[name](vals)
                 except (TypeError, ValueError) as exc:
                     raise NotEvaluable(exc)
+            if t[1][0] == 'attr' and name in STR_METHODS and not t[3]:
+                # a pure method of a string the point fixes ("12".isdigit(), "-1".lstrip("-"))
+                try:
+                    recv = s.ev(t[1][1])
+                except NotEvaluable:
+                    recv = None
+                if isinstance(recv, str):
+                    try:
+                        return getattr(recv, name)(*[s.ev(a) for a in t[2]])
+                    except (TypeError, ValueError) as exc:
+                        raise NotEvaluable(exc)
+                if recv is None or isinstance(recv, (int, float, bytes)):
+                    raise NotEvaluable('%s of %r' % (name, recv))
             if name == 'isinstance' and len(t[2]) == 2 and t[1] == ('b', 'isinstance'):
                 TYPES = {'int': int, 'float': float, 'slice': slice, 'str': str, 'bytes': bytes, 'bool': bool}
                 tt = t[2][1]
